@@ -24,6 +24,11 @@ func init() {
 			"Not covered: actual goroutine schedules (io.Pipe and sync.WaitGroup semantics are trusted).",
 		Run: runC12,
 	})
+	mutant(&Mutant{Name: "c12-gathering-writer-lets-large-chunks-overtake", Property: "C12", File: "minify.go",
+		Old: "type writer struct {\n\tio.WriteCloser\n", New: "type writer struct {\n\tio.WriteCloser\n\tbuf    []byte\n",
+		Old2: "// Close must be called when writing has finished. It returns the error from the minifier.\n", New2: "func (z *writer) Write(b []byte) (int, error) {\n\tif 4096 <= len(b) {\n\t\treturn z.WriteCloser.Write(b)\n\t}\n\tif cap(z.buf) < len(z.buf)+len(b) {\n\t\tif _, err := z.WriteCloser.Write(z.buf); err != nil {\n\t\t\treturn 0, err\n\t\t}\n\t\tz.buf = z.buf[:0]\n\t}\n\tz.buf = append(z.buf, b...)\n\treturn len(b), nil\n}\n\n// Close must be called when writing has finished. It returns the error from the minifier.\n",
+		More: [][2]string{{"\tz := &writer{pw, sync.WaitGroup{}, false, nil}\n\tz.wg.Add(1)\n\tgo func() {\n\t\tdefer z.wg.Done()\n\t\tdefer pr.Close()\n\t\tif err := m.Minify(", "\tz := &writer{pw, nil, sync.WaitGroup{}, false, nil}\n\tz.wg.Add(1)\n\tgo func() {\n\t\tdefer z.wg.Done()\n\t\tdefer pr.Close()\n\t\tif err := m.Minify("}, {"\t\t\tz := &writer{pw, sync.WaitGroup{}, false, nil}\n", "\t\t\tz := &writer{pw, nil, sync.WaitGroup{}, false, nil}\n"}},
+		Rule: "R12.6", Construct: "writer.Write/pass-through"})
 	mutant(&Mutant{Name: "c12-extension-from-request-uri", Property: "C12", File: "minify.go",
 		Old: "\tmediatype := mime.TypeByExtension(path.Ext(uri))\n", New: "\tmediatype := mime.TypeByExtension(path.Ext(r.RequestURI))\n\t_ = uri\n",
 		Rule: "R12.5", Construct: "extension fallback"})
@@ -61,6 +66,7 @@ func runC12(c *Ctx) {
 	c.pipeProtocol("R12.3")
 	c.r124(pk)
 	c.r125(pk)
+	c.r126(pk)
 }
 
 // R12.1
@@ -553,4 +559,116 @@ func (c *Ctx) isRequestPath(pk *packages.Package, fd *ast.FuncDecl, e ast.Expr) 
 		return false, "the extension is taken from r.RequestURI without cutting the query string off: `/index.html?v=1` yields no type and `/page?file=a.css` is treated as a style sheet"
 	}
 	return false, "the argument of path.Ext (" + str(e) + ") is not recognisably the request path"
+}
+
+// R12.6: a wrapper that gathers writes keeps them in order.
+func (c *Ctx) r126(pk *packages.Package) {
+	const rule = "R12.6"
+	c.R.Rule(rule, "root package: in every method Write(p []byte) of a struct type that gathers bytes in a []byte field F (the method appends p to the field) and also hands p straight to an underlying writer (a call X.Write(p) with the parameter as argument), that pass-through is reached only after the gathered bytes were written out — a call that passes F to an underlying Write, directly or through a method of the type that does — or on the outcome len(F) == 0. Otherwise a large chunk overtakes the small chunks written before it and the minifier reads the stream out of order. (No such type exists on the pinned tree: the wrappers hand every chunk to the pipe at once.)")
+	info := pk.TypesInfo
+	n := 0
+	for _, fd := range load.FuncDecls(pk) {
+		if fd.Body == nil || fd.Recv == nil || fd.Name.Name != "Write" || fd.Type.Params.NumFields() != 1 || len(fd.Recv.List[0].Names) != 1 {
+			continue
+		}
+		recv := info.Defs[fd.Recv.List[0].Names[0]]
+		var param types.Object
+		if len(fd.Type.Params.List[0].Names) == 1 {
+			param = info.Defs[fd.Type.Params.List[0].Names[0]]
+		}
+		if recv == nil || param == nil || !isByteSlice(param.Type()) {
+			continue
+		}
+		isParam := func(e ast.Expr) bool {
+			id, ok := ast.Unparen(e).(*ast.Ident)
+			return ok && info.Uses[id] == param
+		}
+		// gathered field: z.F = append(z.F, p...)
+		gathered := ""
+		ast.Inspect(fd.Body, func(x ast.Node) bool {
+			as, ok := x.(*ast.AssignStmt)
+			if !ok || len(as.Lhs) != 1 || len(as.Rhs) != 1 {
+				return true
+			}
+			call, isCall := ast.Unparen(as.Rhs[0]).(*ast.CallExpr)
+			if !isCall || len(call.Args) != 2 {
+				return true
+			}
+			if id, isId := call.Fun.(*ast.Ident); isId && id.Name == "append" && isParam(call.Args[1]) && str(call.Args[0]) == str(as.Lhs[0]) {
+				if r := rootIdent(as.Lhs[0]); r != nil && info.Uses[r] == recv {
+					gathered = str(as.Lhs[0])
+				}
+			}
+			return true
+		})
+		if gathered == "" {
+			continue
+		}
+		g := c.graph(pk, fd)
+		// methods of the receiver type that write the gathered field out
+		flushers := map[types.Object]bool{}
+		for _, md := range load.FuncDecls(pk) {
+			if md.Body == nil || md.Recv == nil || load.RecvName(md) != load.RecvName(fd) || len(md.Recv.List[0].Names) != 1 {
+				continue
+			}
+			rn := md.Recv.List[0].Names[0].Name
+			field := gathered[strings.Index(gathered, "."):]
+			if flow.Contains(md.Body, func(q ast.Node) bool {
+				call, ok := q.(*ast.CallExpr)
+				if !ok || len(call.Args) != 1 {
+					return false
+				}
+				sel, isSel := call.Fun.(*ast.SelectorExpr)
+				return isSel && sel.Sel.Name == "Write" && str(call.Args[0]) == rn+field
+			}) {
+				flushers[info.Defs[md.Name]] = true
+			}
+		}
+		flushed := func(y *flow.Node) bool {
+			a := y.Ast()
+			if a == nil {
+				return false
+			}
+			if (y.Kind == flow.KTrue || y.Kind == flow.KFalse) && y.Of != nil && y.Of.Kind == flow.KCond {
+				sx := nospace(str(y.Of.Expr))
+				if sx == "len("+gathered+")==0" && y.Kind == flow.KTrue || sx == "len("+gathered+")!=0" && y.Kind == flow.KFalse || sx == "0<len("+gathered+")" && y.Kind == flow.KFalse {
+					return true
+				}
+			}
+			if y.Kind != flow.KStmt && y.Kind != flow.KCond {
+				return false
+			}
+			hit := false
+			flowInspectCalls(a, func(call *ast.CallExpr) {
+				if flushers[callee(info, call)] {
+					hit = true
+				}
+				if sel, ok := call.Fun.(*ast.SelectorExpr); ok && sel.Sel.Name == "Write" && len(call.Args) == 1 && str(call.Args[0]) == gathered {
+					hit = true
+				}
+			})
+			return hit
+		}
+		k := 0
+		for _, y := range g.Nodes {
+			a := y.Ast()
+			if a == nil || y.Kind != flow.KStmt {
+				continue
+			}
+			pass := false
+			flowInspectCalls(a, func(call *ast.CallExpr) {
+				if sel, ok := call.Fun.(*ast.SelectorExpr); ok && sel.Sel.Name == "Write" && len(call.Args) == 1 && isParam(call.Args[0]) {
+					pass = true
+				}
+			})
+			if !pass {
+				continue
+			}
+			n++
+			k++
+			p := g.MustPassBefore(y, flushed, flow.Search{})
+			c.R.Check(p == nil, rule, fmt.Sprintf("minify.%s/pass-through #%d after the gathered bytes", load.FuncName(fd), k), c.pos(a), "the gathered bytes are written out first", "the chunk is handed to the underlying writer while earlier chunks are still held in "+gathered+": the stream reaches the minifier out of order: "+pathStr(c, g, p))
+		}
+	}
+	c.R.Exists(rule, "gathering Write methods in the root package", "-", fmt.Sprintf("%d pass-through site(s) examined", n))
 }
